@@ -37,9 +37,18 @@ def run(ctx):
     dist = {"packages": 0, "with_textbox": 0, "with_deleted_paragraph": 0, "with_fields": 0, "with_notes": 0, "with_ignore_mapping": 0,
             "text_lengths": {}}
     for i in range(n):
-        g = gen_xml.XGen(rng, anomalies=0.15, hostile=0.3, images=(i % 4 == 0), dangling=0.0)
+        g = gen_xml.XGen(rng, anomalies=0.15, hostile=0.3, images=(i % 4 == 0), dangling=0.0, alt_no_fallback=0.5)
         pkg = g.package()
         sm, ip, ir, con = MAPS[i % len(MAPS)]
+        if i % 6 == 1:
+            # alternate content WITHOUT a fallback, at run level and at block level: none of its choices is live text
+            from mammoth.docx.xmlparser import element as X, text as XT
+            ch = lambda kids: X("mc:AlternateContent", {}, [X("mc:Choice", {"Requires": "wps"}, kids), X("mc:Choice", {"Requires": "wpg"}, kids)])
+            pkg.body.append(X("w:p", {}, [X("w:r", {}, [X("w:t", {}, [XT("before")])]),
+                                          ch([X("w:r", {}, [X("w:t", {}, [XT("choice only")])])]),
+                                          X("w:r", {}, [ch([X("w:t", {}, [XT("choice in run")])]), X("w:t", {}, [XT("after")])])]))
+            pkg.body.append(ch([X("w:p", {}, [X("w:r", {}, [X("w:t", {}, [XT("choice block")])])])]))
+            pkg.body.append(X("w:p", {}, [X("w:r", {}, [X("w:t", {}, [XT("end")])])]))
         if ir:
             # a run under a `!` mapping that holds a note reference, followed by a live run with another: the ignored run takes its
             # marker AND its note with it, and the live marker keeps the number reading order gives it
